@@ -1,7 +1,9 @@
 ---------------------------- MODULE MC_Integrity ----------------------------
 (* Stage (A) for C10: every configuration x region kind x effect, all detectors run.              *)
 (*   MC_Integrity.cfg                intended coverage map: Sound                                  *)
-(*   MC_Integrity_ascoded.cfg        the code (D1, D2): Sound up to the predicted gap; gap is real *)
-(*   MC_Integrity_ascoded_sound.cfg  the code against plain Sound: TLC must refute                 *)
+(*   MC_Integrity_ascoded.cfg        legacy code (D1, D2): Sound up to the predicted gap; real *)
+(*   MC_Integrity_ascoded_sound.cfg  legacy code (before 48c5310) against plain Sound: refuted      *)
+(*   MC_Integrity_gatehole.cfg       code at 7734a50: Sound up to the offset-table gate gap; real   *)
+(*   MC_Integrity_gatehole_sound.cfg code at 7734a50 against plain Sound: TLC must refute           *)
 EXTENDS Integrity
 =============================================================================
